@@ -34,8 +34,10 @@ def _nav(ctx) -> None:
         for name, step in (("next", "add"), ("previous", "subtract")):
             fn = m.func(f"{cls}.{name}")
             if cls == "DateTime":
+                # the day stepped from may begin later than midnight (skipped 00:00): the result is normalised again
                 body = VALIDATE + ["dt = self if keep_time else self.start_of('day')", f"dt = dt.{step}(days=1)",
-                                   f"while dt.day_of_week != day_of_week:\n    dt = dt.{step}(days=1)", "return dt"]
+                                   f"while dt.day_of_week != day_of_week:\n    dt = dt.{step}(days=1)",
+                                   "return dt if keep_time else dt.start_of('day')"]
             else:
                 body = VALIDATE + [f"dt = self.{step}(days=1)", f"while dt.day_of_week != day_of_week:\n    dt = dt.{step}(days=1)", "return dt"]
             T.match(ctx, "NAV.shape", f"{cls}.{name}", m, fn, body,
@@ -115,14 +117,47 @@ def _dispatch(ctx) -> None:
             g = [n for n in core.walk_fn(fn) if isinstance(n, ast.If) and nun(n.test).startswith("unit not in ")]
             ok = len(g) == 1 and nun(g[0].test) == f"unit not in {units!r}" and "ValueError" in nun(g[0].body[0])
             ctx.ob("DISPATCH.units", f"{cls}.{q}", ok, f"guard `{nun(g[0].test) if g else None}`; supported units are {units}", m.loc(fn))
-            calls = [c for c in core.calls(fn) if nun(c.func).startswith("getattr(self, f'")]
-            ok = len(calls) == 1 and nun(calls[0]) == f"getattr(self, f'{pre}{{unit}}'){args}"
-            ctx.ob("DISPATCH.name", f"{cls}.{q}", ok, f"dispatch `{nun(calls[0]) if calls else None}`", m.loc(fn))
+            calls = [c for c in core.calls(fn) if isinstance(c.func, ast.Call) and nun(c.func.func) == "getattr"]
+            recv = "self"
+            if cls == "DateTime":
+                # the receiver must be the start of the instance's day with fold=1, inline or through a one-line helper
+                recv = "self.start_of('day').replace(fold=1)"
+                if len(calls) == 1 and calls[0].func.args:
+                    r0 = calls[0].func.args[0]
+                    if isinstance(r0, ast.Call) and isinstance(r0.func, ast.Attribute) and nun(r0.func.value) == "self" and not r0.args:
+                        try:
+                            hr = core.returns(m.func(f"{cls}.{r0.func.attr}"))
+                            if len(hr) == 1 and nun(hr[0].value) == recv:
+                                recv = nun(r0)
+                        except core.AnchorMissing:
+                            pass
+            ok = len(calls) == 1 and nun(calls[0]) == f"getattr({recv}, f'{pre}{{unit}}'){args}"
+            ctx.ob("DISPATCH.name", f"{cls}.{q}", ok,
+                   f"dispatch `{nun(calls[0]) if calls else None}`; must be getattr({recv}, f'{pre}{{unit}}'){args}"
+                   + (" - the helpers clone their receiver with its time of day and fold, which must not decide how a skipped or repeated "
+                      "midnight on the target date is resolved" if cls == "DateTime" else ""), m.loc(fn))
+            if cls == "DateTime":
+                # every value handed out is the start of its day
+                outs = [core.strip_casts(r.value) for r in core.returns(fn)]
+                src = {nun(s_.targets[0]): core.strip_casts(s_.value) for s_ in core.walk_fn(fn) if isinstance(s_, ast.Assign)}
+                good = True
+                for o in outs:
+                    s_ = nun(o)
+                    if not s_.endswith(".start_of('day')"):
+                        good = False
+                    else:
+                        inner = o.func.value
+                        if isinstance(inner, ast.Name):
+                            inner = src.get(inner.id, inner)
+                        good = good and nun(core.strip_casts(inner)) == nun(calls[0]) if calls else False
+                ctx.ob("DISPATCH.midnight", f"{cls}.{q}", bool(outs) and good,
+                       f"returns {[nun(o)[:70] for o in outs]}; the helper's result must pass through start_of('day') (a helper started from a "
+                       f"day that begins at 01:00 keeps that wall time on the target date)", m.loc(fn))
             for u in units:
                 ctx.ob("DISPATCH.exhaustive", f"{cls}.{pre}{u}", core.resolve_method(cls, pre + u) is not None, f"{pre}{u} must exist", m.rel)
         fn = m.func(f"{cls}.nth_of")
         ifs = [n for n in core.walk_fn(fn) if isinstance(n, ast.If) and nun(n.test) in ("not dt", "dt is None")]
-        ok = len(ifs) == 1 and nun(ifs[0].body[0]).startswith("raise PendulumException(") and nun(core.body_no_doc(fn)[-1]) == "return dt"
+        ok = len(ifs) == 1 and nun(ifs[0].body[0]).startswith("raise PendulumException(") and nun(core.body_no_doc(fn)[-1]) == ("return dt.start_of('day')" if cls == "DateTime" else "return dt")
         ctx.ob("DISPATCH.nth-error", f"{cls}.nth_of", ok, "nth_of must raise PendulumException exactly when the helper found no such occurrence", m.loc(fn))
         # building the exception must not itself fail: the weekday is accepted as a plain int 0..6 everywhere else (it is used
         # as a calendar.monthcalendar column), so member attributes may only be read from WeekDay(<param>)
